@@ -63,6 +63,15 @@ def r13_1(ctx):
         if isinstance(n, ast.Assign) and n.value is hdr[1]:
             hsrc = ast.unparse(n.targets[0])
     ok = hsrc is not None and ast.unparse(unpacks[0].args[1]) == hsrc + '.getvalue()'
+    if not ok:
+        # header = self._recv(4).getvalue(); unpack(fmt, header)
+        for n in walk_own(rb.node):
+            if isinstance(n, ast.Assign) and isinstance(n.value, ast.Call) and isinstance(n.value.func, ast.Attribute) \
+                    and n.value.func.attr == 'getvalue' and n.value.func.value is hdr[1] and \
+                    ast.unparse(unpacks[0].args[1]) == ast.unparse(n.targets[0]):
+                ok = True
+        if ast.unparse(unpacks[0].args[1]) == ast.unparse(hdr[1]) + '.getvalue()':
+            ok = True
     ctx.ob('R13.1', 'unpack-reads-the-header-bytes', ok, rb, unpacks[0], 'unpack(fmt, <header>.getvalue())')
     # send paths
     hvar = None
